@@ -57,6 +57,12 @@ CHECKS.update({
             'Pair-copula numerics are C06-C08; the two-column distributional clause is statistical and not claimed.'),
 })
 
+CHECKS.update({
+    'C19': ('model_checking', 'symbolic two-fit histories + havoc for np.empty + finite misuse enumeration, z3 for state equality',
+            'For every univariate family (constructor variants included) and symbolic datasets A, B (constant and non-constant, |A|,|B|<=2; 3 thorough): the state after fit(A).fit(B) equals the state after fit(B) on every path; no decision or stored value of a fitted vine (d<=4) mentions np.empty contents; the finite list of unfitted-query / invalid-table / get_instance cases is enumerated on the real code.',
+            'scipy estimators are deterministic uninterpreted functions of their arguments; histories of two fits.'),
+})
+
 NOT_APPLICABLE = {}
 
 
